@@ -210,8 +210,12 @@ static inline size_t varintAdaptiveMaxSize(size_t count) {
 
     /* Worst case: TAGGED encoding with 1 byte header + 9 bytes per value
      * Header: 1 byte encoding type
-     * Data: worst case is tagged (9 bytes per uint64_t) */
-    return 1 + (count * 9);
+     * Data: worst case is tagged (9 bytes per uint64_t)
+     * FOR/PFOR add a fixed header (minimum value, width, count, exception
+     * count) that dominates for short arrays of wide values: a PFOR array of
+     * 21 clustered 8-byte values with one outlier needs 191 bytes. Leave room
+     * for that header as well. */
+    return 1 + (count * 9) + 32;
 }
 
 /* Calculate compression ratio.
